@@ -10,7 +10,7 @@ PROPERTY = 'C17'
 RULE = ('One real ContactHandler (active or passive, 0-3 own bundles queued) against a scripted peer built on the '
         'independent RFC 9174 codec.  The script is a generated list of steps: proper handshake steps, proper transfers, '
         'proper ACKs of everything received ("behave") and single well-formed out-of-place messages chosen from a '
-        '18-letter alphabet (segment/ACK/refuse/SESS_TERM/KEEPALIVE before establishment, ACK/refuse naming an own queued transfer before establishment, a final ACK for an own transfer whose END segment is still unsent (outgoing pipe with a small capacity), contact header with wrong '
+        '20-letter alphabet (segment/ACK/refuse/SESS_TERM/KEEPALIVE before establishment, ACK/refuse naming an own queued transfer before establishment, a final ACK for an own transfer whose END segment is still unsent (outgoing pipe with a small capacity), contact header with wrong '
         'magic or version, second contact header / SESS_INIT, non-START segment without transfer, segment of another '
         'id mid-transfer, START while a transfer is open, ACK/refuse for unknown ids, unknown message type).  All '
         'sequences of up to 2 (quick) / 3 (thorough) adversarial letters are enumerated per phase (before contact, '
@@ -32,11 +32,14 @@ ASSUMPTIONS = [
 EXHAUSTIVE_PART = 'all sequences of <= 2 (quick) / <= 3 (thorough) adversarial letters in each of three phases, active and passive'
 
 LETTERS = ['seg-start', 'seg-mid', 'seg-end', 'ack', 'ack-end', 'refuse', 'term', 'term-reply', 'keepalive', 'reject',
-           'unknown-type', 'second-ch', 'second-init', 'seg-other-id', 'refuse-own', 'ack-own', 'ack-end-own', 'ack-end-early']
+           'unknown-type', 'second-ch', 'second-init', 'seg-other-id', 'refuse-own', 'ack-own', 'ack-end-own', 'ack-end-early',
+           # a refusal / an ACK naming an own transfer that is queued and has not started: no octet of it and not its ID
+           # has been on the wire, so for the peer it is an unknown transfer
+           'refuse-queued', 'ack-queued']
 MUST_ANSWER_ALWAYS = {'unknown-type'}
 MUST_ANSWER_BEFORE_SESSION = {'seg-start', 'seg-mid', 'seg-end', 'ack', 'ack-end', 'refuse', 'term', 'term-reply',
                               'seg-other-id', 'refuse-own', 'ack-own', 'ack-end-own'}
-MUST_ANSWER_ESTABLISHED = {'seg-mid', 'seg-end', 'ack', 'ack-end', 'refuse', 'seg-other-id', 'ack-end-early'}
+MUST_ANSWER_ESTABLISHED = {'seg-mid', 'seg-end', 'ack', 'ack-end', 'refuse', 'seg-other-id', 'ack-end-early', 'refuse-queued', 'ack-queued'}
 
 
 def prepare():
@@ -328,7 +331,20 @@ def execute(case):
                                   and hdl._tx_map[int(bid)] not in hdl._tx_pend_ack), None)
                 if early is None:
                     letter = 'ack-end'
-            if early is not None:
+            queued = None
+            if letter in ('refuse-queued', 'ack-queued'):
+                if established and not glued and not after_glued:
+                    peer.pump()
+                    started = set(m['id'] for m in peer.rx_msgs if m['t'] == 'XFER_SEGMENT')
+                    queued = next((bid for bid, _data in own if int(bid) not in started and int(bid) in hdl._tx_map
+                                   and hdl._tx_map[int(bid)] in hdl._tx_pend_start), None)
+                if queued is None:
+                    letter = letter[:-7]
+            if queued is not None:
+                msg = ({'t': 'XFER_REFUSE', 'reason': 2, 'id': int(queued)} if letter == 'refuse-queued'
+                       else {'t': 'XFER_ACK', 'flags': 0, 'id': int(queued), 'length': 3})
+                out.label('names-a-queued-own-transfer')
+            elif early is not None:
                 msg = {'t': 'XFER_ACK', 'flags': 1, 'id': int(early[0]), 'length': len(early[1])}
                 out.label('ack-end-before-end-was-sent')
             else:
